@@ -395,11 +395,11 @@ PLACES = ["const", "default", "ann_struct", "ann_field", "ann_type", "ann_ns", "
           "listelem", "mapkey", "include", "cpp_include"]
 
 
-def literal_program(place, atoms, k):
-    """a minimal valid program with one literal of the given content at the given place"""
+def literal_program(place, atoms, k, q='"'):
+    """a minimal valid program with one literal of the given content at the given place, written in quotes q"""
     name = "lit_%s_%d" % (place, k)
-    lit = L(*atoms)
-    an = [A("k", *atoms)]
+    lit = L(*atoms, q=q)
+    an = [A("k", *atoms, q=q)]
     if place == "const":
         return prog(name, [const("C", T("string"), lit)], inc=False)
     if place == "default":
@@ -415,13 +415,13 @@ def literal_program(place, atoms, k):
     if place == "ann_type":
         return prog(name, [struct("S", [F(1, "default", T("list", T("i32", ann=an)), "a")])], inc=False)
     if place == "ann_typedef":
-        return prog(name, [typedef("Tt", T("i32", ann=an), ann=[A("o", *atoms)])], inc=False)
+        return prog(name, [typedef("Tt", T("i32", ann=an), ann=[A("o", *atoms, q=q)])], inc=False)
     if place == "ann_ns":
         return prog(name, [], inc=False, namespaces=[{"lang": "go", "name": "x", "ann": an}])
     if place == "ann_enumval":
         return prog(name, [enum("E", [("A", 1, an)])], inc=False)
     if place == "ann_fn":
-        return prog(name, [service("V", [fn("f", ann=an)], ann=[A("s", *atoms)])], inc=False)
+        return prog(name, [service("V", [fn("f", ann=an)], ann=[A("s", *atoms, q=q)])], inc=False)
     if place == "include":
         from c03_lex import esc
         path = "".join(atoms) + ".thrift"
